@@ -52,6 +52,7 @@ def gen_dag(
     allow_emit: bool = True,
     fail_node: int | None = None,
     p_rename: float = 0.2,
+    rename_graph_outputs: bool = True,
 ) -> tuple[dict, dict]:
     """Random gate-free DAG. Returns (graph description, info).
 
@@ -99,7 +100,7 @@ def gen_dag(
             out_ren = []
             outs = []
             for o in ginfo["outputs"]:
-                if rng.random() < p_rename:
+                if rename_graph_outputs and rng.random() < p_rename:
                     no = names.fresh("v")
                     out_ren.append([o, no])
                     outs.append(no)
@@ -239,7 +240,7 @@ def _nested_interface(gdesc: dict, ginfo: dict) -> dict:
 
 # ---------------------------------------------------------------- gates
 
-def gen_gated_dag(rng: random.Random, *, max_nodes: int = 8, p_closed: float = 0.3) -> dict:
+def gen_gated_dag(rng: random.Random, *, max_nodes: int = 8, p_closed: float = 0.3, allow_mutex: bool = True) -> dict:
     """Acyclic program with if/else and multi-way gates in front of groups of nodes.
 
     Gates read integer run-time inputs or integer upstream values; targets are later nodes (or END / None /
@@ -293,7 +294,7 @@ def gen_gated_dag(rng: random.Random, *, max_nodes: int = 8, p_closed: float = 0
             gname = names.fresh("g")
             src = rng.choice(ints) if ints and rng.random() < 0.7 else new_int_input()
             n_br = rng.randint(1, 3)
-            shared_out = names.fresh("v") if n_br >= 2 and rng.random() < 0.4 else None
+            shared_out = names.fresh("v") if allow_mutex and n_br >= 2 and rng.random() < 0.4 else None
             branches = []
             for _ in range(n_br):
                 b = plain_node()
